@@ -636,7 +636,17 @@ class ListenerRequestHandler(BaseHTTPRequestHandler):
         # Content-Range, Expires, If-Range, Range.
 
         # Start processing the request
-        content_len = int(self.headers.get('Content-Length', 0))
+        content_len_str = self.headers.get('Content-Length', '0')
+        try:
+            content_len = int(content_len_str)
+        except ValueError:
+            content_len = -1
+        if content_len < 0:
+            self.send_http_error(
+                400, 'header-mismatch',
+                _format("Invalid Content-Length header value: {0} "
+                        "(need a non-negative integer)", content_len_str))
+            return
         body = self.rfile.read(content_len)
 
         try:
